@@ -189,9 +189,9 @@ Lemma p_field_pos n ts :
   bind (p_exp n ts) (fun r =>
     match snd r with
     | TAssign :: ts1 =>
-      match fst r with
-      | EName k => bind (p_exp n ts1) (fun r2 => Ok ((FKey, EStr k, fst r2, false), snd r2))
-      | _ => Err (snd r)
+      match field_named ts (fst r) with
+      | Some k => bind (p_exp n ts1) (fun r2 => Ok ((FKey, EStr k, fst r2, false), snd r2))
+      | None => Err (snd r)
       end
     | ts1 => Ok ((FPos, ENil, fst r, false), ts1)
     end).
